@@ -353,6 +353,8 @@ class Executor:
     self.call_counter = {}
     self.depth = 0
     self.adhoc = {}        # module-level variables that are not declared state fields (see lookup)
+    self.cur_stmt = None
+    sym.DOWNCAST_HOOK = self._downcast_obligation
 
   # -- small helpers -----------------------------------------------------------
   @property
@@ -361,6 +363,17 @@ class Executor:
 
   def oos(self, why, node=None):
     raise OutOfSubset(why, node)
+
+  def _downcast_obligation(self, v, kind, unless):
+    """Executed code uses the opaque value `v` where the contract declared the record kind
+    `kind` (a local with a declared kind, a key or element of a declared collection, an argument
+    of a callee whose contract takes that record): prove that it is an instance."""
+    goal = sym.ufun('isinst_' + kind.rname, sym.Val, sym.BoolS)(v)
+    if unless is not None:
+      goal = z3.Or(unless, goal)
+    self.path.oblige(f'{self.contract.qual}/safety/opaque_value_used_as_{kind.rname}'
+                     f'#{self.at(self.cur_stmt)}', goal)
+    self.path.assume(goal)
 
   def at(self, node):
     """Position tag for obligation names: line offset inside the function being executed (not
@@ -718,7 +731,18 @@ class Executor:
     m = getattr(self, 'st_' + type(s).__name__, None)
     if m is None:
       self.oos(f'statement {type(s).__name__}', s)
+    if self.depth == 0:
+      self.cur_stmt = s
     m(s)
+    if self.depth == 0 and self.contract.hints:
+      for pred, cl in self.contract.hints:
+        if pred(s):
+          try:
+            g = cl.fn(self.ctx())
+          except OutOfSubset:
+            continue          # the code no longer has that shape: no hint
+          self.path.oblige(f'{self.contract.qual}/hint/{cl.label}', g, cl.props)
+          self.path.assume(g)
 
   def st_Pass(self, s):
     pass
